@@ -491,6 +491,18 @@ def native_replay(u, values, tmp):
         cmd.append('-Wl,--wrap=' + w)
     cmd.append('-lpthread')
     rc, out, err, dt = sh(cmd, timeout=120)
+    if rc != 0 and 'undefined reference to' in err:
+        # functions of other translation units that this unit never models: give them
+        # bodies that stop the replay if they are ever reached
+        syms = sorted(set(re.findall(r"undefined reference to `(\w+)'", err)))
+        stub = os.path.join(tmp, 'undef.c')
+        with open(stub, 'w') as f:
+            f.write('#include <stdio.h>\n#include <stdlib.h>\n')
+            for sname in syms:
+                f.write('void %s(void) { fprintf(stderr, "REPLAY: unmodelled external %s reached\\n"); exit(78); }\n'
+                        % (sname, sname))
+        cmd2 = cmd[:cmd.index(src) + 1] + [stub] + cmd[cmd.index(src) + 1:]
+        rc, out, err, dt = sh(cmd2, timeout=120)
     if rc != 0:
         return None, 'native build failed:\n' + (err + out)[-3000:]
     env = dict(os.environ)
@@ -500,6 +512,8 @@ def native_replay(u, values, tmp):
     txt = (out + err)[-6000:]
     if rc == 77:
         return False, 'input outside the contract natively (assumption false)\n' + txt
+    if rc == 78:
+        return False, 'native run reached a function of another translation unit that the unit does not model\n' + txt
     if rc == 0:
         return False, 'native run did not fail\n' + txt
     return True, 'native run failed (exit %s)\n%s' % (rc, txt)
@@ -568,6 +582,12 @@ def check(pid, tier, jobs, only=None, keep=False, quiet=False):
     if not sel:
         print('no units for %s' % pid)
         return 2
+    # stale replay files of this property are removed so that replays/ shows this run only
+    rd = os.path.join(VERIF, 'replays')
+    if os.path.isdir(rd):
+        for fn in os.listdir(rd):
+            if fn.startswith(pid + '-'):
+                os.unlink(os.path.join(rd, fn))
     sel.sort(key=lambda u: -u['timeout'])
     with ThreadPoolExecutor(max_workers=jobs) as ex:
         recs = list(ex.map(lambda u: run_unit(u, tier, keep), sel))
@@ -602,6 +622,14 @@ def check(pid, tier, jobs, only=None, keep=False, quiet=False):
     for rec, ob, f in known:
         print('KNOWN-FINDING: property=%s unit=%s obligation=%s %s' % (
             pid, rec['name'], ob['id'], ob['description']))
+    def vkey(v):
+        f = str(v[1].get('file') or '')
+        if f.startswith('<'):
+            return 2
+        if f.startswith(REPO):
+            return 0
+        return 1
+    violations.sort(key=vkey)
     seen_units = set()
     for rec, ob in violations:
         u = by_name[rec['name']]
@@ -618,7 +646,9 @@ def check(pid, tier, jobs, only=None, keep=False, quiet=False):
             ('[' + ob.get('text', '') + '] ') if ob.get('text') else '',
             os.path.basename(ob.get('file') or ''), ob.get('line')))
         print('VIOLATION property=%s replay=%s%s' % (pid, path, suffix))
-    for rec, ob in other_fail:
+    if len(other_fail) > 8:
+        print('  note: %d more failed obligations belong to other properties' % (len(other_fail) - 8))
+    for rec, ob in other_fail[:8]:
         print('  note: unit=%s obligation %s failed but belongs to %s, not %s' % (
             rec['name'], ob['id'], ','.join(ob.get('tags') or []), pid))
     for rec in inconclusive:
